@@ -675,7 +675,7 @@ func loadSpecs(repo, verifDir string) (*Specs, error) {
 		}
 	}
 	for _, sf := range []string{"le(B,B) Bool", "lt(B,B) Bool", "pre(B,B) Bool", "cat(B,B) B", "blen(B) Int", "cmp(B,B) Int", "dyn(Int) Int", "kindcode(Any) Int",
-		"trim(B) B", "lead(B) Int", "trail(B) Int", "sub(B,Int,Int) B", "at(B,Int) Int", "chr(Int) B", "lower(B) B", "upper(B) B", "itoa(Int) B", "parseInt(B) Int", "parseIntOk(B) Bool", "parseFloatOk(B) Bool", "parseFloat(B) F64", "tdiv(Int,Int) Int", "tmod(Int,Int) Int", "be32(Int) B", "reMatch(B,B) Bool", "reOk(B) Bool", "repat(Int) B", "splitS(Int) B", "splitSep(Int) B", "splitN(Int) Int",
+		"trim(B) B", "lead(B) Int", "trail(B) Int", "sub(B,Int,Int) B", "at(B,Int) Int", "chr(Int) B", "lower(B) B", "upper(B) B", "itoa(Int) B", "parseInt(B) Int", "parseIntOk(B) Bool", "parseFloatOk(B) Bool", "parseFloat(B) F64", "tdiv(Int,Int) Int", "tmod(Int,Int) Int", "be32(Int) B", "ftoa(F64) B", "reMatch(B,B) Bool", "reOk(B) Bool", "repat(Int) B", "splitS(Int) B", "splitSep(Int) B", "splitN(Int) Int",
 		"flt(F64,F64) Bool", "fle(F64,F64) Bool", "feq(F64,F64) Bool", "fadd(F64,F64) F64", "fsub(F64,F64) F64", "fmul(F64,F64) F64", "fdiv(F64,F64) F64", "i2f(Int) F64", "f2i(F64) Int"} {
 		f, _ := parseSpecFunSig(sf)
 		sp.SpecFuns[f.Name] = f
